@@ -1,12 +1,17 @@
 #!/bin/sh
-# usage: seedtest.sh <PROPERTY> <patch.diff> [demo.py]   -- applies a seeded change to /repo, runs the check, reverts
+# usage: seedtest.sh <PROPERTY> <patch.diff> [demo.py]
+# Applies a seeded change to a scratch worktree of /repo's HEAD (never to /repo itself), points the whole check
+# pipeline at it with VERIF_REPO, prints the verdict lines, and removes the worktree.  The next ordinary ./check
+# regenerates build/gen from /repo again.
 P=$1; PATCH=$2; DEMO=$3
-cd /repo || exit 2
-git diff --quiet || { echo "repo not clean"; exit 2; }
-git apply "$PATCH" || { echo "patch does not apply"; exit 2; }
-if [ -n "$DEMO" ]; then PYTHONPATH=/repo /venv/bin/python "$DEMO" >/tmp/seed_demo.out 2>&1; echo "demo on patched tree: exit $?"; fi
-cd /verif && ./check "$P" --tier quick > /tmp/seed_check.out 2>&1; RC=$?
-grep -E "^VIOLATION|^KNOWN|quick:" /tmp/seed_check.out | cut -c1-220
+WT=${SEED_WT:-/tmp/seedwt}
+git -C /repo worktree remove --force "$WT" >/dev/null 2>&1
+git -C /repo worktree add -q --detach "$WT" HEAD || exit 2
+git -C /repo diff --quiet || git -C /repo diff | git -C "$WT" apply   # carry uncommitted /repo state, if any
+git -C "$WT" apply "$PATCH" || { echo "patch does not apply"; git -C /repo worktree remove --force "$WT"; exit 2; }
+if [ -n "$DEMO" ]; then PYTHONPATH=$WT /venv/bin/python "$DEMO" >/tmp/seed_demo.out 2>&1; echo "demo on patched tree: exit $?"; fi
+cd /verif && VERIF_REPO=$WT ./check "$P" --tier quick > /tmp/seed_check_$P.out 2>&1; RC=$?
+grep -E "^VIOLATION|^KNOWN|quick:" /tmp/seed_check_$P.out | cut -c1-220
 echo "check exit $RC"
-cd /repo && git checkout -- . && git status --short | head -3
+git -C /repo worktree remove --force "$WT"
 exit 0
